@@ -93,8 +93,10 @@ class Cte(AliasedQuery):
         self.terms = terms
 
     def replace_table(self, current_table: "Table" | None, new_table: "Table" | None) -> "Cte":
-        query = self.query.replace_table(current_table, new_table) if self.query is not None else None
-        return Cte(self.name, query, *self.terms)
+        newone = copy(self)
+        if self.query is not None:
+            newone.query = self.query.replace_table(current_table, new_table)
+        return newone
 
 
 class Schema:
@@ -604,6 +606,22 @@ class _SetOperation(Selectable, Term):  # type:ignore[misc]
         self._set_operation = [
             *self._set_operation,
             (SetOperation.minus, other),  # type:ignore[list-item]
+        ]
+
+    @builder
+    def replace_table(  # type:ignore[return]
+        self, current_table: Table | None, new_table: Table | None
+    ) -> "Self":
+        """
+        Replaces all occurrences of the specified table with the new table in every operand of the set operation.
+        """
+        self.base_query = self.base_query.replace_table(current_table, new_table)
+        self._set_operation = [
+            (set_operation, query.replace_table(current_table, new_table))
+            for set_operation, query in self._set_operation
+        ]
+        self._orderbys = [
+            (field.replace_table(current_table, new_table), orient) for field, orient in self._orderbys
         ]
 
     def __add__(self, other: Selectable) -> "Self":  # type:ignore[override]
